@@ -4,7 +4,7 @@ use std::{
     path::Path,
 };
 
-use flate2::read::GzDecoder;
+use flate2::read::{GzDecoder, MultiGzDecoder};
 
 /// The output is wrapped in a Result to allow matching on errors
 /// Returns an Iterator to the Reader of the lines of the file.
@@ -17,7 +17,8 @@ where
     let file = File::open(filename)?;
 
     if is_gzip {
-        let reader = BufReader::new(GzDecoder::new(file));
+        // a gzip file may consist of several members (RFC 1952): read all of them
+        let reader = BufReader::new(MultiGzDecoder::new(file));
         count_lines(reader)
     } else {
         let reader = BufReader::new(file);
